@@ -780,7 +780,7 @@ inline void op(VM &vm) {
             for (uint64_t h : set) arg_cell(C, h);
             Buf<H3Index> in(set.size());
             if (!set.empty()) memcpy(in.p, set.data(), set.size() * 8);
-            Buf<LinkedGeoPolygon> out(1, 0, false);
+            Buf<LinkedGeoPolygon> out(1, 0xA5, false);  // poison: the head node must be initialised by the callee
             int rc = cellsToLinkedMultiPolygon(in.p, (int)set.size(), out.p);
             done(C, rc);
             if (rc == 0) {
